@@ -136,6 +136,15 @@ Proof.
   rewrite IH, fold_left_app. reflexivity.
 Qed.
 
+Lemma NoDup_map_filter {A B} (f : A -> B) (p : A -> bool) l :
+  NoDup (map f l) -> NoDup (map f (filter p l)).
+Proof.
+  induction l as [|x r IH]; simpl; intros H; [constructor|]. inversion H as [|? ? Hx Hr]; subst.
+  destruct (p x); simpl; [|auto]. constructor; [|auto].
+  intros Hin. apply Hx. apply in_map_iff in Hin as [y [Hy Hin]]. apply filter_In in Hin as [Hin _].
+  rewrite <- Hy. apply in_map. assumption.
+Qed.
+
 Lemma NoDup_app_intro {A} (a b : list A) :
   NoDup a -> NoDup b -> (forall x, In x a -> In x b -> False) -> NoDup (a ++ b)%list.
 Proof.
@@ -153,7 +162,7 @@ Section Names.
 
   Lemma iface_names_unfold s own embs :
     N (Tr s own embs) =
-    let own' := filter visn (map m_name own) in
+    let own' := filter visn (map m_name (filter is_meth own)) in
     if negb emb then own' else
     (own' ++ filter (fun n => negb ms_filter || go_ms (Tr s own embs) n)
                     (fst (fold_left merge_one_n (flat_map N embs) ([], own'))))%list.
@@ -196,12 +205,12 @@ Section Names.
   Lemma iface_names_char s own embs n :
     NoDup (map m_name own) -> (forall f, In f embs -> NoDup (N f)) ->
     (In n (N (Tr s own embs)) <->
-     In n (filter visn (map m_name own)) \/
-     (emb = true /\ ~ In n (filter visn (map m_name own)) /\
+     In n (filter visn (map m_name (filter is_meth own))) \/
+     (emb = true /\ ~ In n (filter visn (map m_name (filter is_meth own))) /\
       (ms_filter = true -> go_ms (Tr s own embs) n = true) /\ fields_with n embs = 1)).
   Proof.
     intros Hown Hembs. rewrite iface_names_unfold. cbv zeta.
-    set (own' := filter visn (map m_name own)).
+    set (own' := filter visn (map m_name (filter is_meth own))).
     destruct (negb emb) eqn:Eemb.
     { apply negb_true_iff in Eemb. split; [auto|]. intros [H|[H _]]; [assumption|congruence]. }
     apply negb_false_iff in Eemb.
@@ -231,14 +240,14 @@ Section Names.
   Proof.
     induction t as [s own embs IH] using tree_ind'. intros Hwf. inversion Hwf as [? ? ? Hown Hembs]; subst.
     rewrite iface_names_unfold. cbv zeta.
-    assert (Hvis : NoDup (filter visn (map m_name own))) by (apply NoDup_filter; assumption).
+    assert (Hvis : NoDup (filter visn (map m_name (filter is_meth own)))) by (apply NoDup_filter, NoDup_map_filter; assumption).
     destruct (negb emb); [assumption|].
-    set (st := fold_left merge_one_n (flat_map N embs) ([], filter visn (map m_name own))).
+    set (st := fold_left merge_one_n (flat_map N embs) ([], filter visn (map m_name (filter is_meth own)))).
     assert (Hwfs : wf_state st) by (apply merge_wf; constructor).
-    assert (Hsub : forall x, In x (fst st) -> ~ In x (filter visn (map m_name own))).
+    assert (Hsub : forall x, In x (fst st) -> ~ In x (filter visn (map m_name (filter is_meth own)))).
     { intros x Hx Hi.
       assert (H2 : nstate st x = Nat.iter (occ x (flat_map N embs)) nstep
-                                         (nstate ([], filter visn (map m_name own)) x))
+                                         (nstate ([], filter visn (map m_name (filter is_meth own))) x))
         by apply merge_state.
       rewrite nstate_init in H2. apply mem_In in Hi. rewrite Hi in H2.
       assert (H3 : Nat.iter (occ x (flat_map N embs)) nstep 2 = 2).
@@ -253,7 +262,7 @@ End Names.
 
 (* ------------------------------------------------------------------ the characterisation *)
 Lemma vis_names_eq priv s own embs :
-  vis_names priv (Tr s own embs) = filter (visn priv) (map m_name own).
+  vis_names priv (Tr s own embs) = filter (visn priv) (map m_name (filter is_meth own)).
 Proof. reflexivity. Qed.
 
 Definition exactly_one_field (priv emb : bool) (n : string) (embs : list tree) : Prop :=
@@ -351,30 +360,62 @@ Proof.
   symmetry. apply ms_level_fuel. constructor; [lia|constructor].
 Qed.
 
-Lemma go_ms_own t n : NoDup (own_names t) -> In n (own_names t) -> go_ms t n = true.
+Definition mlevel (lvl : list tree) (n : string) : bool := existsb (fun t => mem n (meth_names t)) lvl.
+
+Lemma meth_in_own t n : In n (meth_names t) -> In n (own_names t).
 Proof.
-  intros Hnd Hin. unfold go_ms. destruct (height t); simpl;
-    rewrite (count_level_one _ _ Hnd); apply mem_In in Hin; rewrite Hin; reflexivity.
+  unfold meth_names, own_names. intros H. apply in_map_iff in H as [m [Hm Hin]].
+  apply filter_In in Hin as [Hin _]. rewrite <- Hm. apply in_map. assumption.
+Qed.
+
+Lemma mem_meth_own t n : mem n (meth_names t) = true -> mem n (own_names t) = true.
+Proof. intros H. apply mem_In. apply meth_in_own. apply mem_In. assumption. Qed.
+
+Lemma ms_level_unfold fuel lvl n :
+  ms_level fuel lvl n =
+  match count_level lvl n with
+  | 0 => match fuel with O => false | S f => ms_level f (flat_map t_emb lvl) n end
+  | 1 => mlevel lvl n
+  | _ => false
+  end.
+Proof. destruct fuel; reflexivity. Qed.
+
+(* at the level of the type itself the selector decides: a method is in the method set, a field
+   hides everything below *)
+Lemma go_ms_top t n : NoDup (own_names t) -> mem n (own_names t) = true ->
+  go_ms t n = mem n (meth_names t).
+Proof.
+  intros Hnd Hin. unfold go_ms. rewrite ms_level_unfold, (count_level_one _ _ Hnd), Hin.
+  unfold mlevel. simpl. apply orb_false_r.
+Qed.
+
+Lemma go_ms_own t n : NoDup (own_names t) -> In n (meth_names t) -> go_ms t n = true.
+Proof.
+  intros Hnd Hin. rewrite go_ms_top; [apply mem_In; assumption|assumption|].
+  apply mem_In, meth_in_own. assumption.
 Qed.
 
 (* the rule, spelled out for embedding two levels deep *)
 Lemma go_ms_two t n : height t <= 2 -> NoDup (own_names t) ->
-  go_ms t n = if mem n (own_names t) then true
+  go_ms t n = if mem n (own_names t) then mem n (meth_names t)
               else match count_level (t_emb t) n with
-                   | 0 => Nat.eqb (count_level (flat_map t_emb (t_emb t)) n) 1
-                   | 1 => true
+                   | 0 => Nat.eqb (count_level (flat_map t_emb (t_emb t)) n) 1 &&
+                          mlevel (flat_map t_emb (t_emb t)) n
+                   | 1 => mlevel (t_emb t) n
                    | _ => false
                    end.
 Proof.
-  intros Hh Hnd. rewrite (go_ms_fuel t n 2 Hh). cbn [ms_level].
-  rewrite (count_level_one _ _ Hnd). destruct (mem n (own_names t)); [reflexivity|].
-  cbn [flat_map]. rewrite app_nil_r.
+  intros Hh Hnd. destruct (mem n (own_names t)) eqn:Eo; [apply go_ms_top; assumption|].
+  rewrite (go_ms_fuel t n 2 Hh). rewrite ms_level_unfold, (count_level_one _ _ Hnd), Eo.
+  cbn [flat_map]. rewrite app_nil_r. rewrite ms_level_unfold.
   destruct (count_level (t_emb t) n) as [|[|c]]; try reflexivity.
+  rewrite ms_level_unfold.
   destruct (count_level (flat_map t_emb (t_emb t)) n) as [|[|c]]; reflexivity.
 Qed.
 
 Lemma go_ms_one t n : height t <= 1 -> NoDup (own_names t) ->
-  go_ms t n = if mem n (own_names t) then true else Nat.eqb (count_level (t_emb t) n) 1.
+  go_ms t n = if mem n (own_names t) then mem n (meth_names t)
+              else Nat.eqb (count_level (t_emb t) n) 1 && mlevel (t_emb t) n.
 Proof.
   intros Hh Hnd. rewrite go_ms_two by (assumption || lia).
   destruct (mem n (own_names t)); [reflexivity|].
@@ -391,6 +432,9 @@ Proof. intros H Hf. inversion H as [? ? ? _ Hembs]; subst. rewrite Forall_forall
 
 Lemma visn_filter priv n l : In n (filter (visn priv) l) <-> In n l /\ visn priv n = true.
 Proof. apply filter_In. Qed.
+
+Lemma vis_names_In priv t n : In n (vis_names priv t) <-> In n (meth_names t) /\ visn priv n = true.
+Proof. unfold vis_names. apply filter_In. Qed.
 
 Lemma iface_leaf priv emb t : height t <= 0 -> iface_names priv emb t = vis_names priv t.
 Proof.
@@ -414,13 +458,26 @@ Proof.
     destruct (filter p l); [contradiction|simpl; lia].
 Qed.
 
-Lemma mem_filter_visn priv n t : visn priv n = true -> mem n (vis_names priv t) = mem n (own_names t).
+Lemma length_filter_le {A} (p q : A -> bool) l :
+  (forall x, In x l -> p x = true -> q x = true) ->
+  List.length (filter p l) <= List.length (filter q l).
 Proof.
-  intros Hv. unfold vis_names. fold (visn priv).
-  destruct (mem n (own_names t)) eqn:E.
-  - apply mem_In. apply visn_filter. apply mem_In in E. auto.
-  - apply mem_false. intros H. apply visn_filter in H as [H _]. apply mem_In in H. congruence.
+  induction l as [|x r IH]; intros H; simpl; [lia|].
+  assert (IH' := IH (fun y Hy => H y (or_intror Hy))).
+  destruct (p x) eqn:Ep.
+  - rewrite (H x (or_introl eq_refl) Ep). simpl. lia.
+  - destruct (q x); simpl; lia.
 Qed.
+
+Lemma mem_filter_visn priv n t : visn priv n = true -> mem n (vis_names priv t) = mem n (meth_names t).
+Proof.
+  intros Hv. destruct (mem n (meth_names t)) eqn:E.
+  - apply mem_In. apply vis_names_In. apply mem_In in E. auto.
+  - apply mem_false. intros H. apply vis_names_In in H as [H _]. apply mem_In in H. congruence.
+Qed.
+
+Lemma mlevel_exists lvl n : mlevel lvl n = true <-> exists x, In x lvl /\ mem n (meth_names x) = true.
+Proof. unfold mlevel. apply existsb_exists. Qed.
 
 (* one level of embedding: the collected names are the visible part of Go's method set *)
 Lemma iface_one priv t n : height t <= 1 -> wf_tree t ->
@@ -428,29 +485,29 @@ Lemma iface_one priv t n : height t <= 1 -> wf_tree t ->
 Proof.
   intros Hh Hwf. rewrite (iface_names_spec priv true t n Hwf).
   pose proof (wf_own _ Hwf) as Hnd.
-  rewrite (go_ms_one t n Hh Hnd).
-  destruct t as [s own embs]. rewrite vis_names_eq, visn_filter. cbn [t_emb].
-  change (own_names (Tr s own embs)) with (map m_name own) in *.
-  assert (Hleaf : forall f, In f embs -> height f <= 0).
-  { apply height_le in Hh. rewrite Forall_forall in Hh. exact Hh. }
-  assert (Hfw : visn priv n = true ->
-                List.length (filter (fun f => mem n (iface_names priv true f)) embs) = count_level embs n).
-  { intros Hv. unfold count_level. apply length_filter_ext. intros f Hf.
-    rewrite (iface_leaf priv true f (Hleaf f Hf)). apply mem_filter_visn. assumption. }
-  unfold exactly_one_field. split.
+  assert (Hleaf : forall f, In f (t_emb t) -> height f <= 0).
+  { destruct t as [s own embs]. apply height_le in Hh. rewrite Forall_forall in Hh. exact Hh. }
+  rewrite vis_names_In. unfold exactly_one_field. split.
   - intros [[Hin Hv]|[_ [Hno [Hms H1]]]].
-    + split; [assumption|]. apply mem_In in Hin. rewrite Hin. reflexivity.
-    + assert (Hv : visn priv n = true).
-      { assert (Hp : 0 < List.length (filter (fun f => mem n (iface_names priv true f)) embs)) by lia.
-        apply length_filter_pos in Hp as [f [Hf Hm]]. apply mem_In in Hm.
-        rewrite (iface_leaf priv true f (Hleaf f Hf)) in Hm. destruct f as [s' own' e'].
-        rewrite vis_names_eq in Hm. apply visn_filter in Hm. tauto. }
-      split; [assumption|]. destruct (mem n (map m_name own)); [reflexivity|]. exact Hms.
-  - intros [Hv Hms]. destruct (mem n (map m_name own)) eqn:E.
+    + split; [assumption|]. apply go_ms_own; assumption.
+    + split; [|assumption].
+      assert (Hp : 0 < List.length (filter (fun f => mem n (iface_names priv true f)) (t_emb t))) by lia.
+      apply length_filter_pos in Hp as [f [Hf Hm]]. apply mem_In in Hm.
+      rewrite (iface_leaf priv true f (Hleaf f Hf)) in Hm. apply vis_names_In in Hm. tauto.
+  - intros [Hv Hms]. destruct (mem n (meth_names t)) eqn:E.
     + left. apply mem_In in E. auto.
-    + right. split; [reflexivity|]. split.
-      * intros [H _]. apply mem_In in H. congruence.
-      * split; [assumption|]. rewrite (Hfw Hv). apply Nat.eqb_eq. assumption.
+    + right. split; [reflexivity|]. split; [intros [H _]; apply mem_In in H; congruence|].
+      split; [assumption|].
+      rewrite (go_ms_one t n Hh Hnd) in Hms.
+      destruct (mem n (own_names t)) eqn:Eo; [congruence|].
+      apply andb_true_iff in Hms as [Hc Hm]. apply Nat.eqb_eq in Hc.
+      apply mlevel_exists in Hm as [x [Hx Hmx]].
+      apply Nat.le_antisymm.
+      * rewrite <- Hc. unfold count_level. apply length_filter_le. intros f Hf Hp.
+        apply mem_In in Hp. rewrite (iface_leaf priv true f (Hleaf f Hf)) in Hp.
+        apply vis_names_In in Hp as [Hp _]. apply mem_In, meth_in_own. assumption.
+      * apply length_filter_pos. exists x. split; [assumption|].
+        rewrite (iface_leaf priv true x (Hleaf x Hx)), mem_filter_visn; assumption.
 Qed.
 
 Lemma count_flat_one embs n :
@@ -464,6 +521,13 @@ Proof.
   - lia.
 Qed.
 
+Lemma count_flat_le embs f n : In f embs ->
+  count_level (t_emb f) n <= count_level (flat_map t_emb embs) n.
+Proof.
+  induction embs as [|x r IH]; intros Hf; [contradiction|]. simpl. rewrite count_level_app.
+  destruct Hf as [->|Hf]; [lia|]. specialize (IH Hf). lia.
+Qed.
+
 Lemma count_level_zero lvl n f : count_level lvl n = 0 -> In f lvl -> mem n (own_names f) = false.
 Proof.
   unfold count_level. intros H Hf. destruct (mem n (own_names f)) eqn:E; [|reflexivity].
@@ -474,24 +538,42 @@ Qed.
 Lemma count_level_pos lvl n : 0 < count_level lvl n -> exists f, In f lvl /\ mem n (own_names f) = true.
 Proof. unfold count_level. apply length_filter_pos. Qed.
 
+Lemma mlevel_flat embs n : mlevel (flat_map t_emb embs) n = true ->
+  exists f, In f embs /\ mlevel (t_emb f) n = true.
+Proof.
+  intros H. apply mlevel_exists in H as [x [Hx Hm]]. apply in_flat_map in Hx as [f [Hf Hx]].
+  exists f. split; [assumption|]. apply mlevel_exists. eauto.
+Qed.
+
+Lemma mlevel_count lvl n : mlevel lvl n = true -> 0 < count_level lvl n.
+Proof.
+  intros H. apply mlevel_exists in H as [x [Hx Hm]]. unfold count_level. apply length_filter_pos.
+  exists x. split; [assumption|]. apply mem_meth_own. assumption.
+Qed.
+
 (* a promoted name comes through some embedded field whose own method set has it *)
 Lemma go_ms_through_field t n : height t <= 2 -> wf_tree t ->
-  go_ms t n = true -> ~ In n (own_names t) -> exists f, In f (t_emb t) /\ go_ms f n = true.
+  go_ms t n = true -> mem n (own_names t) = false -> exists f, In f (t_emb t) /\ go_ms f n = true.
 Proof.
-  intros Hh Hwf Hms Hno. rewrite (go_ms_two t n Hh (wf_own _ Hwf)) in Hms.
-  apply mem_false in Hno. rewrite Hno in Hms.
+  intros Hh Hwf Hms Hno. rewrite (go_ms_two t n Hh (wf_own _ Hwf)), Hno in Hms.
   assert (Hf1 : forall f, In f (t_emb t) -> height f <= 1).
   { destruct t as [s own embs]. apply height_le in Hh. rewrite Forall_forall in Hh. exact Hh. }
   destruct (count_level (t_emb t) n) as [|[|c]] eqn:E1.
-  - apply Nat.eqb_eq in Hms. destruct (count_flat_one _ _ Hms) as [f [Hf Hc]].
-    exists f. split; [assumption|].
+  - apply andb_true_iff in Hms as [Hc Hm]. apply Nat.eqb_eq in Hc.
+    destruct (mlevel_flat _ _ Hm) as [f [Hf Hmf]]. exists f. split; [assumption|].
     rewrite (go_ms_one f n (Hf1 f Hf) (wf_own _ (wf_emb _ _ Hwf Hf))).
-    rewrite (count_level_zero _ _ _ E1 Hf), Hc. reflexivity.
-  - destruct (count_level_pos (t_emb t) n) as [f [Hf Hm]]; [lia|].
-    exists f. split; [assumption|]. apply go_ms_own; [apply wf_own, (wf_emb _ _ Hwf Hf)|].
+    rewrite (count_level_zero _ _ _ E1 Hf), Hmf.
+    pose proof (count_flat_le (t_emb t) f n Hf) as Hle. pose proof (mlevel_count _ _ Hmf) as Hpos.
+    replace (count_level (t_emb f) n) with 1 by lia. reflexivity.
+  - apply mlevel_exists in Hms as [g [Hg Hmg]].
+    exists g. split; [assumption|]. apply go_ms_own; [apply wf_own, (wf_emb _ _ Hwf Hg)|].
     apply mem_In. assumption.
   - discriminate.
 Qed.
+
+Lemma go_ms_selector t n : NoDup (own_names t) -> go_ms t n = true ->
+  mem n (own_names t) = true -> mem n (meth_names t) = true.
+Proof. intros Hnd Hms Ho. rewrite (go_ms_top t n Hnd Ho) in Hms. exact Hms. Qed.
 
 (* embedding at most two levels deep (the property's quantifier): the collected set is the
    specification in the property's words *)
@@ -503,8 +585,15 @@ Proof.
   assert (Hf1 : forall f, In f (t_emb t) -> height f <= 1 /\ wf_tree f).
   { intros f Hf. split; [|apply (wf_emb _ _ Hwf Hf)].
     destruct t as [s own embs]. apply height_le in Hh. rewrite Forall_forall in Hh. auto. }
-  assert (Hvis : In n (vis_names priv t) <-> In n (own_names t) /\ visn priv n = true).
-  { destruct t. rewrite vis_names_eq. apply visn_filter. }
+  pose proof (vis_names_In priv t n) as Hvis.
+  assert (Hcnt : visn priv n = true ->
+            List.length (filter (fun f => mem n (iface_names priv true f)) (t_emb t)) =
+            List.length (filter (fun f => go_ms f n) (t_emb t))).
+  { intros Hv. apply length_filter_ext. intros f Hf. destruct (Hf1 f Hf) as [Hhf Hwff].
+    destruct (mem n (iface_names priv true f)) eqn:Em.
+    + apply mem_In in Em. apply (iface_one priv f n Hhf Hwff) in Em. symmetry. tauto.
+    + destruct (go_ms f n) eqn:Eg; [|reflexivity]. exfalso.
+      apply mem_false in Em. apply Em. apply (iface_one priv f n Hhf Hwff). auto. }
   split.
   - intros [H|[He [Hno [Hms H1]]]]; [left; assumption|]. right. subst emb.
     assert (Hv : visn priv n = true).
@@ -514,31 +603,20 @@ Proof.
       destruct (Hf1 f Hf) as [Hhf Hwff]. apply (iface_one priv f n Hhf Hwff) in Hm. tauto. }
     unfold visn in Hv. rewrite Hv, Hms. simpl.
     assert (Hown : mem n (own_names t) = false).
-    { apply mem_false. intros H. apply Hno. apply Hvis. auto. }
+    { destruct (mem n (own_names t)) eqn:Eo; [|reflexivity]. exfalso. apply Hno. apply Hvis.
+      split; [|exact Hv]. apply mem_In. apply (go_ms_selector t n (wf_own _ Hwf) Hms Eo). }
     rewrite Hown. simpl. apply Nat.leb_le.
-    unfold exactly_one_field in H1. rewrite <- H1. apply Nat.eq_le_incl. symmetry.
-    apply length_filter_ext. intros f Hf. destruct (Hf1 f Hf) as [Hhf Hwff].
-    destruct (mem n (iface_names priv true f)) eqn:Em.
-    + apply mem_In in Em. apply (iface_one priv f n Hhf Hwff) in Em. symmetry. tauto.
-    + destruct (go_ms f n) eqn:Eg; [|reflexivity]. exfalso.
-      apply mem_false in Em. apply Em. apply (iface_one priv f n Hhf Hwff). auto.
+    unfold exactly_one_field in H1. rewrite <- (Hcnt Hv). lia.
   - intros [H|H]; [left; assumption|]. right.
     rewrite !andb_true_iff in H. destruct H as [He [[[Hv Hms] Hown] Hle]].
     subst emb. apply negb_true_iff in Hown. apply Nat.leb_le in Hle.
     split; [reflexivity|]. split.
-    { intros H. apply Hvis in H as [H _]. apply mem_In in H. congruence. }
+    { intros H. apply Hvis in H as [H _]. apply meth_in_own in H. apply mem_In in H. congruence. }
     split; [assumption|].
-    destruct (go_ms_through_field t n Hh Hwf Hms) as [f [Hf Hg]]; [apply mem_false; assumption|].
+    destruct (go_ms_through_field t n Hh Hwf Hms Hown) as [f [Hf Hg]].
     assert (Hge : 0 < List.length (filter (fun f => go_ms f n) (t_emb t)))
       by (apply length_filter_pos; eauto).
-    unfold exactly_one_field.
-    replace (List.length (filter (fun f => mem n (iface_names priv true f)) (t_emb t)))
-      with (List.length (filter (fun f => go_ms f n) (t_emb t))); [lia|].
-    apply length_filter_ext. intros g Hgin. destruct (Hf1 g Hgin) as [Hhg Hwfg].
-    destruct (mem n (iface_names priv true g)) eqn:Em.
-    + apply mem_In in Em. apply (iface_one priv g n Hhg Hwfg) in Em. tauto.
-    + destruct (go_ms g n) eqn:Eg; [|reflexivity]. exfalso.
-      apply mem_false in Em. apply Em. apply (iface_one priv g n Hhg Hwfg). auto.
+    unfold exactly_one_field. rewrite (Hcnt Hv). lia.
 Qed.
 
 (* ------------------------------------------------------------------ fit and the private filter *)
@@ -586,7 +664,7 @@ Proof.
 Qed.
 
 (* ------------------------------------------------------------------ the pinned code *)
-Definition mk (n : string) : meth := M n [] false [].
+Definition mk (n : string) : meth := M n [] false [] false.
 Definition tnode (n : string) (ms : list string) (es : list tree) : tree :=
   Tr (TNamed (Some ("example.com/p", "p")) n []) (map mk ms) es.
 (* type S struct{ F; G }; F struct{ X }; G struct{ Y; Z }; X, Y, Z each define Foo *)
@@ -641,7 +719,16 @@ Inductive picks (priv emb flt : bool) : tree -> meth -> Prop :=
     picks priv emb flt (Tr s own embs) m0.
 
 Lemma picks_visible priv emb flt t m0 : picks priv emb flt t m0 -> visn priv (m_name m0) = true.
-Proof. induction 1; [assumption|assumption]. Qed.
+Proof.
+  induction 1 as [s own embs m0 _ Hv|]; [|assumption].
+  unfold visible in Hv. apply andb_true_iff in Hv. tauto.
+Qed.
+
+Lemma picks_is_meth priv emb flt t m0 : picks priv emb flt t m0 -> is_meth m0 = true.
+Proof.
+  induction 1 as [s own embs m0 _ Hv|]; [|assumption].
+  unfold visible in Hv. apply andb_true_iff in Hv. tauto.
+Qed.
 
 Lemma picks_all priv emb flt t m0 : picks priv emb flt t m0 -> In m0 ((fix all (t : tree) : list meth :=
   match t with Tr _ own embs => (own ++ flat_map all embs)%list end) t).
@@ -771,14 +858,15 @@ Proof.
   - set (n := m_name m0) in *. set (t := Tr s own embs) in *.
     assert (Hvis : visn priv n = true) by apply (picks_visible _ _ _ _ _ Hp).
     change (In n (iface_names priv emb f)) in Hif.
-    assert (Hown : mem n (own_names t) = false).
-    { apply mem_false. intros H. apply Hno. unfold vis_names. apply visn_filter. auto. }
     assert (Hhf : height f <= 1).
     { apply height_le in Hh. rewrite Forall_forall in Hh. auto. }
     assert (Hwff : wf_tree f) by apply (wf_emb t f Hwf Hf).
     specialize (IH (Nat.le_trans _ _ _ Hhf (le_S _ _ (le_n 1))) Hwff Hif).
     apply (iface_names_spec priv emb t n Hwf) in Hit as [Hit|[_ [_ [Hms H1]]]]; [contradiction|].
     subst emb.
+    assert (Hown : mem n (own_names t) = false).
+    { destruct (mem n (own_names t)) eqn:Eo; [|reflexivity]. exfalso. apply Hno. apply vis_names_In.
+      split; [|exact Hvis]. apply mem_In. apply (go_ms_selector t n (wf_own _ Hwf) Hms Eo). }
     assert (Hgf : go_ms f n = true) by apply (iface_names_fit priv true f n Hwff Hif).
     rewrite (go_ms_two t n Hh (wf_own _ Hwf)), Hown in Hms.
     rewrite (go_ms_one f n Hhf (wf_own _ Hwff)) in Hgf.
@@ -789,9 +877,9 @@ Proof.
     rewrite M0. unfold t in Hms, H1 |- *. cbn [t_emb] in Hms, H1 |- *.
     destruct (count_level embs n) as [|[|c]] eqn:E1; [| |discriminate].
     + (* declared two levels down *)
-      apply Nat.eqb_eq in Hms.
+      apply andb_true_iff in Hms as [Hms _]. apply Nat.eqb_eq in Hms.
       assert (Hof : mem n (own_names f) = false) by apply (count_level_zero _ _ _ E1 Hf).
-      rewrite Hof in Hgf. apply Nat.eqb_eq in Hgf.
+      rewrite Hof in Hgf. apply andb_true_iff in Hgf as [Hgf _]. apply Nat.eqb_eq in Hgf.
       destruct (count_level_pos (t_emb f) n) as [x [Hx Hmx]]; [lia|].
       assert (Hx2 : In x (flat_map t_emb embs)) by (apply in_flat_map; eauto).
       rewrite (matches_zero _ _ E1). rewrite (matches_unique _ _ x Hms Hx2 Hmx).
@@ -801,7 +889,7 @@ Proof.
       pose proof (filter_name_nonempty n x Hmx) as Hne.
       destruct (filter (fun m => String.eqb (m_name m) n) (t_own x)); [contradiction|exact IH].
     + (* declared by a field's own type: that field is f *)
-      destruct (count_level_pos embs n) as [g [Hg Hmg]]; [lia|].
+      apply mlevel_exists in Hms as [g [Hg Hmg]].
       assert (Hmf : mem n (own_names f) = true).
       { destruct (mem n (own_names f)) eqn:Ef; [reflexivity|]. exfalso.
         assert (Hig : mem n (iface_names priv true g) = true).
@@ -809,7 +897,7 @@ Proof.
           { apply height_le in Hh. rewrite Forall_forall in Hh. auto. }
           apply (iface_one priv g n Hhg (wf_emb t g Hwf Hg)). split; [assumption|].
           apply go_ms_own; [apply wf_own, (wf_emb t g Hwf Hg)|apply mem_In; assumption]. }
-        assert (Hne : f <> g) by (intros ->; congruence).
+        assert (Hne : f <> g) by (intros ->; apply mem_meth_own in Hmg; congruence).
         pose proof (filter_two (fun f => mem n (iface_names priv true f)) embs f g Hf Hg Hne
                                (proj2 (mem_In _ _) Hif) Hig) as H2.
         unfold exactly_one_field in H1. lia. }
